@@ -380,6 +380,7 @@ func c16Scenarios(thorough bool) []*scenario {
 			r = append(r, &scenario{name: "downloader/" + c.name(), bounds: bounds, body: downloaderScenario(c), steps: 4000})
 		}
 	}
+	r = append(r, nodeScenarios(thorough)...)
 	r = append(r, managerScenarios(thorough)...)
 	return r
 }
